@@ -8,6 +8,10 @@ import CalicoVerif.Proofs.C01Acc
 import CalicoVerif.Proofs.C01ProfAct
 import CalicoVerif.Proofs.C01Res
 import CalicoVerif.Proofs.C01Tab
+import CalicoVerif.Proofs.C01Lbl
+import CalicoVerif.Proofs.C01PolAct
+import CalicoVerif.Proofs.C01Fresh
+import CalicoVerif.Proofs.C01ProfTab
 /-!
 C01 — Felix's computed dataplane state depends only on current datastore state.
 
@@ -133,18 +137,53 @@ theorem declared_eq_rulescanner_partial (H : IdFn) (s : Bool) (h : List HStep) :
   · rintro ⟨k, r, h1, h2⟩
     exact ⟨k, (hi.refs k uid).mpr ⟨r, h1, h2⟩⟩
 
+/-- the ValidationFilter's demand on a policy's selector: `selector.Validate` accepts it (C06 model) -/
+def selValid : Upd → Prop
+  | .policy _ _ (some pv) => C06.validate pv.sel = .ok ()
+  | _ => True
+
+/-- `selector.Validate` accepts exactly what `selector.Parse` accepts (C06 `validate_iff_parse`), so a
+selector the ValidationFilter lets through parses -/
+theorem selParses_of_valid {u : Upd} (h : selValid u) : selParses u := by
+  cases u with
+  | policy nid key v =>
+    cases v with
+    | none => trivial
+    | some pv =>
+      obtain ⟨t, ht⟩ := (C06.validate_iff_parse pv.sel).mp h
+      show (selOf pv.sel).isSome = true
+      unfold selOf
+      rw [ht]
+      rfl
+  | _ => trivial
+
+/-- WELL-FORMED history: consistent numbering, and every policy selector passes `selector.Validate` -/
+def WellFormed (N : Numbering) (h : List HStep) : Prop :=
+  ∀ st ∈ h, match st with
+    | .upd u => N.updOk u ∧ selValid u
+    | _ => True
+
+theorem WellFormed.histOk {N : Numbering} {h : List HStep} (hw : WellFormed N h) : N.histOk h := by
+  intro st hst
+  have := hw st hst
+  cases st with
+  | upd u => exact ⟨this.1, selParses_of_valid this.2⟩
+  | inSync => trivial
+  | flush => trivial
+
+theorem WellFormed.stepOk {N : Numbering} {h : List HStep} (hw : WellFormed N h) : ∀ st ∈ h, N.stepOk st := by
+  intro st hst
+  have := hw st hst
+  cases st with
+  | upd u => exact this.1
+  | inSync => trivial
+  | flush => trivial
+
 /-- What REMAINS to be discharged for a history (each field names the node theorem that owes it). -/
 structure RemainingContract (H : IdFn) (s : Bool) (h : List HStep) : Prop where
   /-- (b) C04 `members_once_and_alternate`: member callbacks add only absent / remove only present
   members of a declared set -/
   memberCalls : memberValidAll {} (run H (Graph.new s) (h ++ [.flush])).1.calls
-  /-- (a′) ARC → datastore: the `active` table is the specification's: a policy is active with its
-  current rules iff it selects a local endpoint (`arc_policy_matches_eq_eval_partial` + label-index
-  tables), a profile iff a local endpoint lists it (`arc_profile_table_eq_spec_partial`) -/
-  activePols : ∀ k, (mget (run H (Graph.new s) (h ++ [.flush])).1.active (.pol k)).map (rulesOf H) =
-      mget (fresh H s (lastState h)).pols k
-  activeProfs : ∀ p, (mget (run H (Graph.new s) (h ++ [.flush])).1.active (.prof p)).map (rulesOf H) =
-      mget (fresh H s (lastState h)).profs p
   /-- (b) C04 `ipset_members_eq_spec` (+ the domain, proved above, + injectivity of `showMember`) -/
   ipsets : (decl (run H (Graph.new s) (h ++ [.flush])).1).ipsets = (fresh H s (lastState h)).toDP.ipsets
   /-- (c) ENDPOINTS — C03's `resolver_eq_spec` / `isSpec_determines_list` are plugged in
@@ -154,17 +193,12 @@ structure RemainingContract (H : IdFn) (s : Bool) (h : List HStep) : Prop where
   keyU : C03.KeyU (histKeys h)
   /-- … the history contains the in-sync signal (the resolver emits nothing before it) … -/
   sawInSync : HStep.inSync ∈ h
-  /-- … the harness's endpoint / policy numbers are consistent (number ↦ real key injective, locality a
-  function of the number) — then the resolver's endpoint and policy tables ARE the datastore's
-  (`resolver_tables_eq_datastore_partial`, proved) … -/
-  numbered : ∃ N : Numbering, ∀ st ∈ h, N.stepOk st
-  /-- … the resolver's match relation is the specification's (ARC → datastore, as for `activePols`) … -/
-  resMatched : ∀ p e, (p, e) ∈ (run H (Graph.new s) (h ++ [.flush])).1.res.matched ↔ (p, e) ∈ (lastState h).matched
-  /-- … and (a statement about the SPECIFICATION only, no graph) the per-endpoint list `fresh` writes down
-  satisfies C03's `IsSpec` for the datastore state. -/
-  freshIsSpec : ∀ e, (mget (lastState h).localEps e).isSome = true →
-      C03.IsSpec (lastState h).tiers (lastState h).polMetas (lastState h).matched e
-        (C03.filterTiers (lastState h).matched e (lastState h).sortedTiers)
+  /-- … the history is WELL-FORMED: the harness's endpoint / policy numbers are consistent (number ↦ real key
+  injective, locality a function of the number) and every policy selector passes `selector.Validate` — which
+  is exactly what the ValidationFilter demands of a policy it lets through (`validate:"selector"`).  Then the
+  resolver's endpoint table, policy table and match relation ARE the datastore's
+  (`resolver_tables_eq_datastore_partial`, `resolver_matched_eq_datastore_partial`, proved) … -/
+  wellFormed : ∃ N : Numbering, WellFormed N h
 
 /-- RESOLVER TABLES = DATASTORE (all consistently numbered histories, any flush placement): after the
 final flush the PolicyResolver's endpoint table is exactly the datastore's LOCAL endpoints and its
@@ -175,6 +209,45 @@ theorem resolver_tables_eq_datastore_partial (H : IdFn) (s : Bool) (h : List HSt
       (mget (lastState h).localEps e).map (fun v => (⟨v.tag, v.profiles⟩ : EpData))) ∧
     (∀ k, mget (run H (Graph.new s) (h ++ [.flush])).1.res.allPolicies k = mget (lastState h).polMetas k) :=
   resolver_tables_eq_datastore H s h N hN
+
+/-- RESOLVER MATCH RELATION = SPECIFICATION (all well-formed histories, any flush placement): after the final
+flush `(policy, endpoint)` is in the PolicyResolver's match relation iff the policy's selector (source text,
+parsed by the C06 model) is true of the LOCAL endpoint's effective labels in the datastore (own labels, then
+the listed profiles' labels in order).  Proof: the label index's tables are the datastore's (`LInv`), C07's
+`index_eq_eval` invariant carried through the graph, `policyIDToEndpointKeys` mirrors the index and the resolver
+mirrors `policyIDToEndpointKeys` through the numbering (`MInv`). -/
+theorem resolver_matched_eq_datastore_partial (H : IdFn) (s : Bool) (h : List HStep) (N : Numbering)
+    (hw : WellFormed N h) (p : PolicyKey) (e : EpKey) :
+    (p, e) ∈ (run H (Graph.new s) (h ++ [.flush])).1.res.matched ↔ (p, e) ∈ (lastState h).matched :=
+  resolver_matched_eq_datastore H s h N hw.histOk p e
+
+/-- ACTIVE POLICIES = SPECIFICATION (all well-formed histories, any flush placement): after the final flush the
+RuleScanner's `active` table — hence, by `declared_eq_rulescanner_partial`, the declared dataplane state — holds
+policy `k` iff `k`'s selector matches some LOCAL endpoint in the datastore, and then with the policy's CURRENT
+rules (and their IP-set ids): exactly `fresh`'s policy table.  Proof: `PolAct` (the table follows
+`policyIDToEndpointKeys` and the ARC's `allPolicies`, through every `sendPolicyUpdate`), `LInv`/`MInv` (those are
+the datastore's) and `resolver_matched_eq_datastore_partial`. -/
+theorem active_policies_eq_spec_partial (H : IdFn) (s : Bool) (h : List HStep) (N : Numbering)
+    (hw : WellFormed N h) (k : PolicyKey) :
+    (mget (run H (Graph.new s) (h ++ [.flush])).1.active (.pol k)).map (rulesOf H) =
+      mget (fresh H s (lastState h)).pols k := by
+  rw [active_policies_eq_datastore H s h N hw.histOk k]
+  show _ = mget ((lastState h).activePols.map (fun p => (p.1, (⟨p.2.rules.tag, refsOf H p.2.rules⟩ : Rules)))) k
+  rw [mget_map_val (fun _ (v : PolVal) => (⟨v.rules.tag, refsOf H v.rules⟩ : Rules))]
+  cases mget (lastState h).activePols k <;> rfl
+
+/-- THE SPECIFICATION'S LIST SATISFIES C03's `IsSpec` (no graph involved): for the final datastore state of a
+consistently numbered history whose policy keys have pairwise different tie-break strings, the per-endpoint
+list `fresh` writes down — `filterTiers matched e sortedTiers`, `sortedTiers` = one record per tier that exists
+or is named by an active policy, insertion-sorted with `TierLess`, each with its active policies
+insertion-sorted with `PolKVLess` — is sorted, non-empty per tier, carries the tier resources' attributes and
+holds exactly the matching policies with their current metadata.  With `C03.isSpec_determines_list` this
+identifies it with what the resolver emitted. -/
+theorem fresh_tier_list_isSpec (h : List HStep) (N : Numbering) (hN : ∀ st ∈ h, N.stepOk st)
+    (hK : C03.KeyU (histKeys h)) (e : EpKey) :
+    C03.IsSpec (lastState h).tiers (lastState h).polMetas (lastState h).matched e
+      (C03.filterTiers (lastState h).matched e (lastState h).sortedTiers) :=
+  fresh_isSpec_of_hist h N hN hK e
 
 /-- RESOLVER END (C03 plugged into the composed graph; all histories over policy keys `K` with pairwise
 different tie-break strings, any flush placement, containing the in-sync signal): after the final flush
@@ -195,56 +268,6 @@ theorem declared_endpoints_eq_resolver_spec_partial (H : IdFn) (s : Bool) (h : L
         C03.IsSpec (lastState h).tiers (run H (Graph.new s) (h ++ [.flush])).1.res.allPolicies
           (run H (Graph.new s) (h ++ [.flush])).1.res.matched e l :=
   declared_endpoints_isSpec H s h K hK hd hin hs e
-
-/-- END-TO-END (partial: modelled nodes only, and under the named `RemainingContract`): for every
-history `h` of datastore updates (duplicates, reverts, spurious deletes, invalid values = deletes) with
-flushes anywhere, followed by a final flush, the dataplane state described by everything emitted
-equals the state a fresh Felix emits for the final datastore state.  The IP-set add/remove half of the
-protocol and "declared policies/profiles = RuleScanner table" are PROVED (above) and used here. -/
-theorem calc_history_independent_partial (H : IdFn) (s : Bool) (h : List HStep)
-    (hc : RemainingContract H s h) :
-    accumulate (run H (Graph.new s) (h ++ [.flush])).2 = (fresh H s (lastState h)).toDP := by
-  have hvalid : validAll {} (run H (Graph.new s) (h ++ [.flush])).1.calls :=
-    validAll_of _ _ (ipset_add_remove_valid_partial H s (h ++ [.flush])) hc.memberCalls
-  rw [accumulate_eq_declared_partial H s h hvalid]
-  have hd := declared_eq_rulescanner_partial H s (h ++ [.flush])
-  simp only [] at hd
-  show decl _ = _
-  have hpol : (decl (run H (Graph.new s) (h ++ [.flush])).1).pol = (fresh H s (lastState h)).toDP.pol := by
-    funext k; rw [hd.1 k, hc.activePols k]; rfl
-  have hprof : (decl (run H (Graph.new s) (h ++ [.flush])).1).prof = (fresh H s (lastState h)).toDP.prof := by
-    funext p; rw [hd.2.1 p, hc.activeProfs p]; rfl
-  have ho := others_untouched _ ({} : DP) (ipset_add_remove_valid_partial H s (h ++ [.flush]))
-  have hep : (decl (run H (Graph.new s) (h ++ [.flush])).1).ep = (fresh H s (lastState h)).toDP.ep := by
-    funext e
-    obtain ⟨N, hN⟩ := hc.numbered
-    have ht := resolver_tables_eq_datastore_partial H s h N hN
-    exact endpoints_of H s h hc.keyU hc.sawInSync ht.1 ht.2 hc.resMatched hc.freshIsSpec e
-  exact DP.ext' hc.ipsets hpol hprof hep ho.1 ho.2.1 ho.2.2
-
-/-- RULE SCANNER node theorem (all histories of OnPolicyActive/Inactive, OnProfileActive/Inactive):
-`key` references exactly the IP sets of its latest rules; the OnIPSetActive / OnIPSetInactive events are a
-legal activation sequence ending with exactly the referenced sets in use. -/
-theorem rulescanner_node_eq_spec (l : List (RulesId × List (String × IpSetDef)))
-    (hcur : ∀ c ∈ l, (C02.mkeys c.2).Nodup) :
-    (∀ k u, (k, u) ∈ (rsRun l).1.refs ↔ (C02.mget (lastCur k l) u).isSome = true) ∧
-    EvReplay (fun _ => false) (rsRun l).2 (rsRun l).1.inUse ∧
-    (∀ u, (rsRun l).1.inUse u = true ↔ ∃ k, (C02.mget (lastCur k l) u).isSome = true) :=
-  rulescanner_eq_spec l hcur
-
-/-- ARC POLICY PATH inside the composed graph (all histories, all flush placements): the
-ActiveRulesCalculator's `policyIDToEndpointKeys` relates policy number `n` and local endpoint number
-`i` exactly when both are known to the label index and the policy's selector evaluates to true on the
-endpoint's effective labels (own labels, then the profiles' labels in order).  (`_partial`: the
-`PerformanceHints` force-programming dummy match is not modelled.) -/
-theorem arc_policy_matches_eq_eval_partial (H : IdFn) (s : Bool) (h : List HStep) (n i : Nat) :
-    (n, i) ∈ (run H (Graph.new s) h).1.polEps ↔
-      ∃ sel it, C07.lookup n (run H (Graph.new s) h).1.lbl.sels = some sel ∧
-        C07.lookup i (run H (Graph.new s) h).1.lbl.items = some it ∧
-        sel.eval (C07.effLabels (run H (Graph.new s) h).1.lbl it) = true := by
-  have hi := arcInv_run H h (arcInv_new s)
-  rw [hi.mirrors (n, i)]
-  exact hi.idx.sound (n, i)
 
 /-- ARC PROFILE PATH inside the composed graph (all histories, all flush placements): the table of
 active profiles the rule scanner has been told (`C05.view` of every OnProfileActive/Inactive made so
@@ -285,6 +308,82 @@ theorem active_profiles_eq_c05_spec_partial (H : IdFn) (s : Bool) (h : List HSte
   refine ⟨fun hr => ?_, fun hr => ?_⟩
   · rw [hp, hv.1 hr]; rfl
   · rw [hp, hv.2 hr]; rfl
+
+/-- ACTIVE PROFILES = SPECIFICATION (all consistently numbered histories, any flush placement): after the final
+flush the RuleScanner's `active` table — hence the declared dataplane state — holds profile `p` iff some LOCAL
+endpoint in the datastore lists it, with the profile's current rules or, if it has none, the deny stand-in:
+exactly `fresh`'s profile table.  Proof: `active_profiles_eq_c05_spec_partial` (the table is C05's specification
+of the ARC's own tables) and `PInv` (those tables are the datastore's). -/
+theorem active_profiles_eq_spec_partial (H : IdFn) (s : Bool) (h : List HStep) (N : Numbering)
+    (hN : ∀ st ∈ h, N.stepOk st) (p : String) :
+    (mget (run H (Graph.new s) (h ++ [.flush])).1.active (.prof p)).map (rulesOf H) =
+      mget (fresh H s (lastState h)).profs p := by
+  have hc05 := active_profiles_eq_c05_spec_partial H s (h ++ [.flush]) p
+  simp only [] at hc05
+  have hi := pInv_frame (pInv_run H h (pInv_new N s) hN) (arcProf_flush (run H (Graph.new s) h).1)
+  have ht := tabInv_flush (tabInv_run H h (tabInv_new N s) hN)
+  rw [← run_snoc_flush] at hi ht
+  have hd := dsNodup_lastState h {} ⟨by simp [mkeys], by simp [mkeys]⟩
+  have key : mget (run H (Graph.new s) (h ++ [.flush])).1.active (.prof p) = mget (lastState h).activeProfs p :=
+    activeProfs_eq_ds hi ht hd hc05
+  rw [key]
+  show _ = mget ((lastState h).activeProfs.map (fun q => (q.1, (⟨q.2.tag, refsOf H q.2⟩ : Rules)))) p
+  rw [mget_map_val (fun _ (v : RulesIn) => (⟨v.tag, refsOf H v⟩ : Rules))]
+  cases mget (lastState h).activeProfs p <;> rfl
+
+/-- END-TO-END (partial: modelled nodes only, and under the named `RemainingContract`): for every
+history `h` of datastore updates (duplicates, reverts, spurious deletes, invalid values = deletes) with
+flushes anywhere, followed by a final flush, the dataplane state described by everything emitted
+equals the state a fresh Felix emits for the final datastore state.  The IP-set add/remove half of the
+protocol and "declared policies/profiles = RuleScanner table" are PROVED (above) and used here. -/
+theorem calc_history_independent_partial (H : IdFn) (s : Bool) (h : List HStep)
+    (hc : RemainingContract H s h) :
+    accumulate (run H (Graph.new s) (h ++ [.flush])).2 = (fresh H s (lastState h)).toDP := by
+  have hvalid : validAll {} (run H (Graph.new s) (h ++ [.flush])).1.calls :=
+    validAll_of _ _ (ipset_add_remove_valid_partial H s (h ++ [.flush])) hc.memberCalls
+  rw [accumulate_eq_declared_partial H s h hvalid]
+  have hd := declared_eq_rulescanner_partial H s (h ++ [.flush])
+  simp only [] at hd
+  show decl _ = _
+  have hpol : (decl (run H (Graph.new s) (h ++ [.flush])).1).pol = (fresh H s (lastState h)).toDP.pol := by
+    obtain ⟨N, hN⟩ := hc.wellFormed
+    funext k; rw [hd.1 k, active_policies_eq_spec_partial H s h N hN k]; rfl
+  have hprof : (decl (run H (Graph.new s) (h ++ [.flush])).1).prof = (fresh H s (lastState h)).toDP.prof := by
+    obtain ⟨N, hN⟩ := hc.wellFormed
+    funext p; rw [hd.2.1 p, active_profiles_eq_spec_partial H s h N hN.stepOk p]; rfl
+  have ho := others_untouched _ ({} : DP) (ipset_add_remove_valid_partial H s (h ++ [.flush]))
+  have hep : (decl (run H (Graph.new s) (h ++ [.flush])).1).ep = (fresh H s (lastState h)).toDP.ep := by
+    funext e
+    obtain ⟨N, hN⟩ := hc.wellFormed
+    have ht := resolver_tables_eq_datastore_partial H s h N hN.stepOk
+    exact endpoints_of H s h hc.keyU hc.sawInSync ht.1 ht.2
+      (resolver_matched_eq_datastore_partial H s h N hN)
+      (fun e _ => fresh_tier_list_isSpec h N hN.stepOk hc.keyU e) e
+  exact DP.ext' hc.ipsets hpol hprof hep ho.1 ho.2.1 ho.2.2
+
+/-- RULE SCANNER node theorem (all histories of OnPolicyActive/Inactive, OnProfileActive/Inactive):
+`key` references exactly the IP sets of its latest rules; the OnIPSetActive / OnIPSetInactive events are a
+legal activation sequence ending with exactly the referenced sets in use. -/
+theorem rulescanner_node_eq_spec (l : List (RulesId × List (String × IpSetDef)))
+    (hcur : ∀ c ∈ l, (C02.mkeys c.2).Nodup) :
+    (∀ k u, (k, u) ∈ (rsRun l).1.refs ↔ (C02.mget (lastCur k l) u).isSome = true) ∧
+    EvReplay (fun _ => false) (rsRun l).2 (rsRun l).1.inUse ∧
+    (∀ u, (rsRun l).1.inUse u = true ↔ ∃ k, (C02.mget (lastCur k l) u).isSome = true) :=
+  rulescanner_eq_spec l hcur
+
+/-- ARC POLICY PATH inside the composed graph (all histories, all flush placements): the
+ActiveRulesCalculator's `policyIDToEndpointKeys` relates policy number `n` and local endpoint number
+`i` exactly when both are known to the label index and the policy's selector evaluates to true on the
+endpoint's effective labels (own labels, then the profiles' labels in order).  (`_partial`: the
+`PerformanceHints` force-programming dummy match is not modelled.) -/
+theorem arc_policy_matches_eq_eval_partial (H : IdFn) (s : Bool) (h : List HStep) (n i : Nat) :
+    (n, i) ∈ (run H (Graph.new s) h).1.polEps ↔
+      ∃ sel it, C07.lookup n (run H (Graph.new s) h).1.lbl.sels = some sel ∧
+        C07.lookup i (run H (Graph.new s) h).1.lbl.items = some it ∧
+        sel.eval (C07.effLabels (run H (Graph.new s) h).1.lbl it) = true := by
+  have hi := arcInv_run H h (arcInv_new s)
+  rw [hi.mirrors (n, i)]
+  exact hi.idx.sound (n, i)
 
 /-! ### non-vacuity: a concrete history (policy selecting a local endpoint through an inherited
 profile label, an IP set with members, reverts and a spurious delete, flushes in between) for which
